@@ -100,7 +100,7 @@ func linked(d []byte, H uint32) []rec {
 	for b := uint32(0); b < numHash; b++ {
 		off := le32(d, H+4+4*b)
 		for n := 0; off != 0 && n <= len(d)/unit; n++ {
-			if off < H+4+4*numHash || uint64(off)+16 > uint64(len(d)) || seen[off] {
+			if off < H+4+4*numHash || off%8 != 0 || uint64(off)+16 > uint64(len(d)) || seen[off] {
 				break
 			}
 			nl := le32(d, off+8) & 0x00ffffff
@@ -280,7 +280,7 @@ func restCase() {
 	vosc.Reset(nil)
 
 	// a clean file with some counters, made by the real code
-	h, err := counter.VerifOpenMapped(path, meta)
+	h, err := counter.VerifOpenHandle(path, meta)
 	if err != nil {
 		panic(err)
 	}
@@ -288,6 +288,9 @@ func restCase() {
 	var existing []string
 	for i := 0; i < nexist; i++ {
 		nm := restNames[rnd.Intn(8)]
+		if len(nm) > 100 && rnd.Chance(70) {
+			nm = restNames[rnd.Intn(5)]
+		}
 		c, m1, err := h.NewCounter(nm)
 		if err != nil {
 			panic(err)
@@ -305,7 +308,7 @@ func restCase() {
 	limit := le32(d, H)
 
 	// ---- damage ----
-	kind := Pick(rnd, []string{"none", "limit", "limit", "limit", "head", "head", "reclen", "next", "next", "next",
+	kind := Pick(rnd, []string{"none", "limit", "limit", "limit", "head", "head", "reclen", "next", "next", "next", "shifted", "shifted",
 		"trunc", "trunc", "random-tail", "random-all", "random-spot", "hdrlen"})
 	out.Note("damage-" + kind)
 	pickRec := func() rec {
@@ -338,6 +341,19 @@ func restCase() {
 		if rnd.Chance(40) { // close a 2-cycle / a cycle through another bucket
 			put32(d, o.off+12, r.off)
 		}
+	case "shifted":
+		// a copy of a record at an offset that is not 32-byte aligned (4 mod 8: rejected since fix a01a83c;
+		// 8 or 16 mod 32: accepted), linked from its bucket
+		r := pickRec()
+		if len(recs) > 0 {
+			n := uint32(16 + len(r.name))
+			dst := roundUp(limit, unit) + Pick(rnd, []uint32{4, 4, 12, 8, 16, 20})
+			if dst+n+unit <= size {
+				copy(d[dst:dst+n], d[r.off:r.off+n])
+				put32(d, H+4+4*fnv(r.name), dst)
+				put32(d, H, roundUp(dst+n, unit))
+			}
+		}
 	case "trunc":
 		k := rnd.Intn(len(d)/unit + 1)
 		d = d[:k*unit]
@@ -360,9 +376,9 @@ func restCase() {
 	}
 
 	// ---- open the damaged file with the real code ----
-	var hd *counter.VerifMapped
+	var hd *counter.VerifHandle
 	var openErr error
-	st, _ := runManaged(20000, func() { hd, openErr = counter.VerifOpenMapped(path, meta) })
+	st, _ := runManaged(20000, func() { hd, openErr = counter.VerifOpenHandle(path, meta) })
 	fields := []string{"rest", kind, U(uint64(H))}
 	if st != "ok" || openErr != nil {
 		cls := st
@@ -400,11 +416,14 @@ func restCase() {
 				o.name = Pick(rnd, existing)
 			default:
 				o.name = Pick(rnd, restNames)
+				if len(o.name) > 100 && rnd.Chance(60) {
+					o.name = restNames[rnd.Intn(5)]
+				}
 			}
 		}
 		before := linked(cur, H)
 		var res []string
-		var m1 *counter.VerifMapped
+		var m1 *counter.VerifHandle
 		status, _ := runManaged(30000, func() {
 			switch o.kind {
 			case "lookup":
